@@ -75,6 +75,14 @@ Theorem C16_glob_delete_invariant : forall l l' : list string, Permutation l l' 
 Proof. intros. apply glob_delete_invariant. assumption. Qed.
 Print Assumptions C16_glob_delete_invariant.
 
+(* a cleanup that first copies the listing into a local and then deletes its elements (x_emit.snapshot_delete): whatever order the
+   copy has, it is the cleanup step of `run` — so C16_run_history_independent applies to it as to the direct loop *)
+Theorem C16_snapshot_delete_is_cleanup : forall (owned : string -> bool) (l : list string) (outs : list (string * content)) (f : fs string content),
+  (forall n, In n l <-> (owned n = true /\ f n <> None)) ->
+  forall n, write_all string String.eqb content outs (delete_all string String.eqb content l f) n = run string String.eqb content true owned outs f n.
+Proof. intros. apply (snapshot_cleanup_run string String.eqb String.eqb_spec). assumption. Qed.
+Print Assumptions C16_snapshot_delete_is_cleanup.
+
 Theorem C16_glob_write_invariant : forall outs outs' : list (string * content), Permutation outs outs' -> NoDup (map fst outs) ->
   forall (f : fs string content) n, write_all string String.eqb content outs f n = write_all string String.eqb content outs' f n.
 Proof. intros. apply (glob_write_invariant string String.eqb String.eqb_spec); assumption. Qed.
